@@ -1,0 +1,328 @@
+//go:build verif
+
+package thrift
+
+// Contracts for the Thrift binary codec, checked by /verif (govc).
+// Comment-only file: it adds nothing to the build. `vs` is internal/verifspec.
+
+// ---- shared vocabulary: "the bytes of b at off are the Thrift Binary encoding of ..." ----
+
+//@ pred encBool(b, off, v) = (v ==> b[off] == 1) && (!v ==> b[off] == 0)
+//@ pred encByte(b, off, v) = b[off] == byte(v)
+//@ pred encI16(b, off, v) = vs.BE16(b, off) == uint16(v)
+//@ pred encI32(b, off, v) = vs.BE32(b, off) == uint32(v)
+//@ pred encI64(b, off, v) = vs.BE64(b, off) == uint64(v)
+//@ pred encBytes(b, off, s) = vs.BE32(b, off) == uint32(len(s)) && eqbytes(b, off+4, s, 0, len(s))
+//@ pred encField(b, off, t, id) = b[off] == byte(t) && vs.BE16(b, off+1) == uint16(id)
+//@ pred encMap(b, off, kt, vt, n) = b[off] == byte(kt) && b[off+1] == byte(vt) && vs.BE32(b, off+2) == uint32(n)
+//@ pred encList(b, off, et, n) = b[off] == byte(et) && vs.BE32(b, off+1) == uint32(n)
+//@ pred encMsg(b, off, name, typeID, seq) = vs.BE32(b, off) == 0x80010000 | (uint32(typeID) & 0xffff) && encBytes(b, off+4, name) && vs.BE32(b, off+8+len(name)) == uint32(seq)
+//@ pred keeps(r, b) = len(r) >= len(b) && eqbytes(r, 0, old(snap(b)), 0, len(b))
+//@ pred sizeOK(n) = 0 <= n && n <= 0x7fffffff
+//@ pred appended(r, b) = (region(r) == region(b) && offset(r) == offset(b) && cap(r) == cap(b)) || fresh(r)
+
+// ---- in-place writers ----
+
+//@ func BinaryProtocol.WriteMessageBegin
+//@   props C01, C12
+//@   requires len(buf) >= 12 + len(name) && sizeOK(len(name))
+//@   ensures ret == 12 + len(name) && encMsg(buf, 0, name, typeID, seq)
+//@   assigns buf[0:12+len(name)]
+
+//@ func BinaryProtocol.WriteFieldBegin
+//@   props C01
+//@   requires len(buf) >= 3
+//@   ensures ret == 3 && encField(buf, 0, typeID, id)
+//@   assigns buf[0:3]
+
+//@ func BinaryProtocol.WriteFieldStop
+//@   props C01
+//@   requires len(buf) >= 1
+//@   ensures ret == 1 && buf[0] == 0
+//@   assigns buf[0:1]
+
+//@ func BinaryProtocol.WriteMapBegin
+//@   props C01
+//@   requires len(buf) >= 6 && sizeOK(size)
+//@   ensures ret == 6 && encMap(buf, 0, kt, vt, size)
+//@   assigns buf[0:6]
+
+//@ func BinaryProtocol.WriteListBegin
+//@   props C01
+//@   requires len(buf) >= 5 && sizeOK(size)
+//@   ensures ret == 5 && encList(buf, 0, et, size)
+//@   assigns buf[0:5]
+
+//@ func BinaryProtocol.WriteSetBegin
+//@   props C01
+//@   requires len(buf) >= 5 && sizeOK(size)
+//@   ensures ret == 5 && encList(buf, 0, et, size)
+//@   assigns buf[0:5]
+
+//@ func BinaryProtocol.WriteBool
+//@   props C01
+//@   requires len(buf) >= 1
+//@   ensures ret == 1 && encBool(buf, 0, v)
+//@   assigns buf[0:1]
+
+//@ func BinaryProtocol.WriteByte
+//@   props C01
+//@   requires len(buf) >= 1
+//@   ensures ret == 1 && encByte(buf, 0, v)
+//@   assigns buf[0:1]
+
+//@ func BinaryProtocol.WriteI16
+//@   props C01
+//@   requires len(buf) >= 2
+//@   ensures ret == 2 && encI16(buf, 0, v)
+//@   assigns buf[0:2]
+
+//@ func BinaryProtocol.WriteI32
+//@   props C01
+//@   requires len(buf) >= 4
+//@   ensures ret == 4 && encI32(buf, 0, v)
+//@   assigns buf[0:4]
+
+//@ func BinaryProtocol.WriteI64
+//@   props C01
+//@   requires len(buf) >= 8
+//@   ensures ret == 8 && encI64(buf, 0, v)
+//@   assigns buf[0:8]
+
+//@ func BinaryProtocol.WriteDouble
+//@   props C01
+//@   requires len(buf) >= 8
+//@   ensures ret == 8 && vs.BE64(buf, 0) == math.Float64bits(v)
+//@   assigns buf[0:8]
+
+//@ func BinaryProtocol.WriteBinary
+//@   props C01
+//@   requires len(buf) >= 4 + len(v) && sizeOK(len(v)) && region(buf) != region(v)
+//@   ensures ret == 4 + len(v) && encBytes(buf, 0, old(snap(v)))
+//@   assigns buf[0:4+len(v)]
+
+//@ func BinaryProtocol.WriteString
+//@   props C01
+//@   requires len(buf) >= 4 + len(v) && sizeOK(len(v))
+//@   ensures ret == 4 + len(v) && encBytes(buf, 0, v)
+//@   assigns buf[0:4+len(v)]
+
+// ---- appending writers ----
+
+//@ func appendUint32
+//@   props C01
+//@   ensures len(ret) == len(buf) + 4 && keeps(ret, buf) && vs.BE32(ret, len(buf)) == v
+//@   ensures appended(ret, buf)
+//@   assigns buf[len(buf):cap(buf)]
+
+//@ func appendUint64
+//@   props C01
+//@   ensures len(ret) == len(buf) + 8 && keeps(ret, buf) && vs.BE64(ret, len(buf)) == v
+//@   ensures appended(ret, buf)
+//@   assigns buf[len(buf):cap(buf)]
+
+//@ func BinaryProtocol.AppendI32
+//@   props C01
+//@   ensures len(ret) == len(buf) + 4 && keeps(ret, buf) && encI32(ret, len(buf), v)
+//@   ensures appended(ret, buf)
+//@   assigns buf[len(buf):cap(buf)]
+
+//@ func BinaryProtocol.AppendI64
+//@   props C01
+//@   ensures len(ret) == len(buf) + 8 && keeps(ret, buf) && encI64(ret, len(buf), v)
+//@   ensures appended(ret, buf)
+//@   assigns buf[len(buf):cap(buf)]
+
+//@ func BinaryProtocol.AppendDouble
+//@   props C01
+//@   ensures len(ret) == len(buf) + 8 && keeps(ret, buf) && vs.BE64(ret, len(buf)) == math.Float64bits(v)
+//@   ensures appended(ret, buf)
+//@   assigns buf[len(buf):cap(buf)]
+
+//@ func BinaryProtocol.AppendI16
+//@   arith int
+//@   props C01
+//@   ensures len(ret) == len(buf) + 2 && keeps(ret, buf) && encI16(ret, len(buf), v)
+//@   ensures appended(ret, buf)
+//@   assigns buf[len(buf):cap(buf)]
+
+//@ func BinaryProtocol.AppendByte
+//@   arith int
+//@   props C01
+//@   ensures len(ret) == len(buf) + 1 && keeps(ret, buf) && encByte(ret, len(buf), v)
+//@   ensures appended(ret, buf)
+//@   assigns buf[len(buf):cap(buf)]
+
+//@ func BinaryProtocol.AppendBool
+//@   arith int
+//@   props C01
+//@   ensures len(ret) == len(buf) + 1 && keeps(ret, buf) && encBool(ret, len(buf), v)
+//@   ensures appended(ret, buf)
+//@   assigns buf[len(buf):cap(buf)]
+
+//@ func BinaryProtocol.AppendFieldBegin
+//@   arith int
+//@   props C01
+//@   ensures len(ret) == len(buf) + 3 && keeps(ret, buf) && encField(ret, len(buf), typeID, id)
+//@   ensures appended(ret, buf)
+//@   assigns buf[len(buf):cap(buf)]
+
+//@ func BinaryProtocol.AppendFieldStop
+//@   arith int
+//@   props C01
+//@   ensures len(ret) == len(buf) + 1 && keeps(ret, buf) && ret[len(buf)] == 0
+//@   ensures appended(ret, buf)
+//@   assigns buf[len(buf):cap(buf)]
+
+//@ func BinaryProtocol.AppendMapBegin
+//@   arith int
+//@   props C01
+//@   requires sizeOK(size)
+//@   ensures len(ret) == len(buf) + 6 && keeps(ret, buf) && encMap(ret, len(buf), kt, vt, size)
+//@   ensures appended(ret, buf)
+//@   assigns buf[len(buf):cap(buf)]
+
+//@ func BinaryProtocol.AppendListBegin
+//@   arith int
+//@   props C01
+//@   requires sizeOK(size)
+//@   ensures len(ret) == len(buf) + 5 && keeps(ret, buf) && encList(ret, len(buf), et, size)
+//@   ensures appended(ret, buf)
+//@   assigns buf[len(buf):cap(buf)]
+
+//@ func BinaryProtocol.AppendSetBegin
+//@   arith int
+//@   props C01
+//@   requires sizeOK(size)
+//@   ensures len(ret) == len(buf) + 5 && keeps(ret, buf) && encList(ret, len(buf), et, size)
+//@   ensures appended(ret, buf)
+//@   assigns buf[len(buf):cap(buf)]
+
+//@ func BinaryProtocol.AppendBinary
+//@   arith int
+//@   props C01
+//@   requires sizeOK(len(v)) && region(buf) != region(v)
+//@   ensures len(ret) == len(buf) + 4 + len(v) && keeps(ret, buf) && encBytes(ret, len(buf), old(snap(v)))
+//@   ensures appended(ret, buf)
+//@   assigns buf[len(buf):cap(buf)]
+
+//@ func BinaryProtocol.AppendString
+//@   arith int
+//@   props C01
+//@   requires sizeOK(len(v))
+//@   ensures len(ret) == len(buf) + 4 + len(v) && keeps(ret, buf) && encBytes(ret, len(buf), v)
+//@   ensures appended(ret, buf)
+//@   assigns buf[len(buf):cap(buf)]
+
+//@ func BinaryProtocol.AppendMessageBegin
+//@   arith int
+//@   props C01, C12
+//@   requires sizeOK(len(name))
+//@   ensures len(ret) == len(buf) + 12 + len(name) && keeps(ret, buf) && encMsg(ret, len(buf), name, typeID, seq)
+//@   ensures appended(ret, buf)
+//@   assigns buf[len(buf):cap(buf)]
+
+// ---- advertised lengths ----
+
+//@ func BinaryProtocol.MessageBeginLength
+//@   props C01, C12
+//@   ensures ret == 12 + len(method)
+//@ func BinaryProtocol.FieldBeginLength
+//@   props C01
+//@   ensures ret == 3
+//@ func BinaryProtocol.FieldStopLength
+//@   props C01
+//@   ensures ret == 1
+//@ func BinaryProtocol.MapBeginLength
+//@   props C01
+//@   ensures ret == 6
+//@ func BinaryProtocol.ListBeginLength
+//@   props C01
+//@   ensures ret == 5
+//@ func BinaryProtocol.SetBeginLength
+//@   props C01
+//@   ensures ret == 5
+//@ func BinaryProtocol.BoolLength
+//@   props C01
+//@   ensures ret == 1
+//@ func BinaryProtocol.ByteLength
+//@   props C01
+//@   ensures ret == 1
+//@ func BinaryProtocol.I16Length
+//@   props C01
+//@   ensures ret == 2
+//@ func BinaryProtocol.I32Length
+//@   props C01
+//@   ensures ret == 4
+//@ func BinaryProtocol.I64Length
+//@   props C01
+//@   ensures ret == 8
+//@ func BinaryProtocol.DoubleLength
+//@   props C01
+//@   ensures ret == 8
+//@ func BinaryProtocol.StringLength
+//@   props C01, C15
+//@   ensures ret == 4 + len(v)
+//@ func BinaryProtocol.BinaryLength
+//@   props C01, C15
+//@   ensures ret == 4 + len(v)
+//@ func BinaryProtocol.StringLengthNocopy
+//@   props C01, C15
+//@   ensures ret == 4 + len(v)
+//@ func BinaryProtocol.BinaryLengthNocopy
+//@   props C01, C15
+//@   ensures ret == 4 + len(v)
+
+// ---- buffer readers (no precondition: every byte string is a legal input) ----
+
+//@ func BinaryProtocol.ReadBool
+//@   props C01, C03, C17
+//@   ensures len(buf) < 1 ==> err == errReadBool && l == 0 && !v
+//@   ensures len(buf) >= 1 ==> err == nil && l == 1 && (v <==> buf[0] == 1)
+
+//@ func BinaryProtocol.ReadByte
+//@   props C01, C03, C17
+//@   ensures len(buf) < 1 ==> err == errReadByte && l == 0 && v == 0
+//@   ensures len(buf) >= 1 ==> err == nil && l == 1 && v == int8(buf[0])
+
+//@ func BinaryProtocol.ReadI16
+//@   props C01, C03, C17
+//@   ensures len(buf) < 2 ==> err == errReadI16 && l == 0 && v == 0
+//@   ensures len(buf) >= 2 ==> err == nil && l == 2 && v == int16(vs.BE16(buf, 0))
+
+//@ func BinaryProtocol.ReadI32
+//@   props C01, C03, C17
+//@   ensures len(buf) < 4 ==> err == errReadI32 && l == 0 && v == 0
+//@   ensures len(buf) >= 4 ==> err == nil && l == 4 && v == int32(vs.BE32(buf, 0))
+
+//@ func BinaryProtocol.ReadI64
+//@   props C01, C03, C17
+//@   ensures len(buf) < 8 ==> err == errReadI64 && l == 0 && v == 0
+//@   ensures len(buf) >= 8 ==> err == nil && l == 8 && v == int64(vs.BE64(buf, 0))
+
+//@ func BinaryProtocol.ReadDouble
+//@   props C01, C03, C17
+//@   ensures len(buf) < 8 ==> err == errReadDouble && l == 0
+//@   ensures len(buf) >= 8 ==> err == nil && l == 8 && math.Float64bits(v) == vs.BE64(buf, 0)
+
+//@ func BinaryProtocol.ReadFieldBegin
+//@   props C01, C03, C17
+//@   ensures len(buf) < 1 ==> err == errReadField && l == 0
+//@   ensures len(buf) >= 1 && buf[0] == 0 ==> err == nil && l == 1 && typeID == 0 && id == 0
+//@   ensures len(buf) >= 1 && buf[0] != 0 && len(buf) < 3 ==> err == errReadField && l == 0
+//@   ensures len(buf) >= 3 && buf[0] != 0 ==> err == nil && l == 3 && typeID == int8(buf[0]) && id == int16(vs.BE16(buf, 1))
+
+//@ func BinaryProtocol.ReadMapBegin
+//@   props C01, C03, C17
+//@   ensures len(buf) < 6 ==> err == errReadMap && l == 0
+//@   ensures len(buf) >= 6 ==> err == nil && l == 6 && kt == int8(buf[0]) && vt == int8(buf[1]) && size == int(vs.BE32(buf, 2))
+
+//@ func BinaryProtocol.ReadListBegin
+//@   props C01, C03, C17
+//@   ensures len(buf) < 5 ==> err == errReadList && l == 0
+//@   ensures len(buf) >= 5 ==> err == nil && l == 5 && et == int8(buf[0]) && size == int(vs.BE32(buf, 1))
+
+//@ func BinaryProtocol.ReadSetBegin
+//@   props C01, C03, C17
+//@   ensures len(buf) < 5 ==> err == errReadSet && l == 0
+//@   ensures len(buf) >= 5 ==> err == nil && l == 5 && et == int8(buf[0]) && size == int(vs.BE32(buf, 1))
